@@ -103,7 +103,7 @@ func (s *Sim) loop(root func(s *Sim)) {
 			synctest.Wait()
 			for _, inv := range s.invariants {
 				if err := inv(); err != nil {
-					s.Fail("invariant", "%v", err)
+					s.failRaw("invariant", "", err.Error())
 					s.invariants = nil
 					break
 				}
